@@ -185,7 +185,7 @@ def run_config(chk, facts, cfg):
                 if FORBID.search(t.callee):
                     chk.ob("C01-f", f"{b.path} calls {t.callee}", False, key=f"forbid|{b.path}|{t.callee}", file=b.file, line=t.line, fn=b.path,
                            detail="an observation of time / environment / randomness / thread identity in a parsing path")
-    chk.floor("C01-f", "calls scanned in font-types + read-fonts", ncalls, 20000)
+    chk.floor("C01-f", "calls scanned in font-types + read-fonts", ncalls, 20000 if cfg == "union" else 5000)
     from ..ptrtaint import PtrTaint
     pt = PtrTaint(facts, list(facts.crates))
     npc = 0
@@ -197,7 +197,7 @@ def run_config(chk, facts, cfg):
         chk.ob("C01-f", f"{b.path.split('::')[-1]} line {st[3][0]}: pointer-to-integer cast -> {[d for v, d in r][:2]}", not bad,
                key=f"ptrcast|{b.path}|{bad[:1]}", file=b.file, line=st[3][0], fn=b.path,
                detail=f"an address observed as an integer reaches {bad}: the observation depends on where the bytes sit in memory")
-    chk.floor("C01-f", "pointer-to-integer casts followed", npc, 6)
+    chk.floor("C01-f", "pointer-to-integer casts followed", npc, 6 if cfg == "union" else 1)
 
     # ---- C01-g -----------------------------------------------------------------------------------
     chk.rule("C01-g", "explicit-panic census: unwrap/expect/panic!/unreachable! sites in hand-written read-fonts code equal the "
